@@ -121,6 +121,9 @@ def gen_base(rng, opts):
                 params.append({"rows": rng.choice([1, 2]), "cols": 1, "grid": ""})
             if vars_ and rng.random() < opts.get("p_var2", 0.25):
                 vars_.append({"rows": rng.choice([1, 2]), "cols": 1, "grid": ""})
+            # matrix-valued global parameter (only when asked for: the random stream of other checks is untouched)
+            if opts.get("p_param_mat") and rng.random() < opts["p_param_mat"]:
+                params.append({"rows": rng.choice([1, 2]), "cols": 2, "grid": ""})
     # declaration order is not tied to the grid kind (rockit keeps one table per kind)
     rng.shuffle(params)
     rng.shuffle(vars_)
